@@ -512,3 +512,19 @@ func variantAllocTable(root *ssa.Function, maxID int64, pick func(t *types.Named
 	}
 	return out
 }
+
+// liftToCaller: the instructions of top that (transitively, through same-package helper calls) execute at: at itself
+// when it is in top, else the call sites of its function, lifted in turn.
+func liftToCaller(top *ssa.Function, at ssa.Instruction, depth int) []ssa.Instruction {
+	if at.Parent() == top {
+		return []ssa.Instruction{at}
+	}
+	if depth <= 0 {
+		return nil
+	}
+	var out []ssa.Instruction
+	for _, ci := range callersInPkg(at.Parent()) {
+		out = append(out, liftToCaller(top, ci, depth-1)...)
+	}
+	return out
+}
